@@ -350,6 +350,16 @@ def run(ctx):
     pr = C.coq_props(PROPS)
     C.coq_obligation_violations(ctx, pr, "C14")
     C.log("coq done %.1fs" % (time.time() - t_start))
+    chk = None
+    if ctx.tier == "thorough" and not pr["failed"]:
+        with C.Lock("coq"):
+            rc, o = C.sh(["coqchk", "-silent", "-o", "-Q", "theories", "MTV", "-Q", "gen", "MTVgen", "MTV.Props.C14", "MTV.Inst.C14i"],
+                         cwd=C.COQ, timeout=3000)
+        chk = "coqchk -silent -o MTV.Props.C14 MTV.Inst.C14i: rc=%d, %s" % (rc, "axioms: <none>" if "* Axioms: <none>" in o else o[-400:])
+        if rc != 0 or "* Axioms: <none>" not in o:
+            C.violation(ctx, "coq:coqchk", "coqchk does not accept the C14 development: " + o[-600:],
+                        {"no_failing_input": True, "broken_obligation": "coqchk", "log": o[-2000:]})
+        C.log("coqchk done %.1fs" % (time.time() - t_start))
 
     C.build_model("C14")
     cases = ctx.work + "/cases.txt"
@@ -487,7 +497,7 @@ def run(ctx):
                  "non-trivial = distinct parsed schema values on which ParseSchema succeeded; each text goes through tlparser.ParseSchema and the extracted Parser.v parse "
                  "(classes and every name/id/parameter/result compared), then createInternalSchema vs Classify.v; a subset is generated twice by the tlgen binary, compiled, reflected and compared with Classify.v's descriptors"
                  % (3 if ctx.tier == "thorough" else 2),
-         "samples": samples, "input_distribution": stats, "result_classes": classes, "cursor_method_sequences": cursor_cases,
+         "samples": samples, "input_distribution": stats, "coqchk": chk, "result_classes": classes, "cursor_method_sequences": cursor_cases,
          "disagreements_checked": disagreements, "generator": cst,
          "projection": "result class ok/err/panic/hang; for ok every definition: section, name, id, result type, vector marker, parameters (name, type, vector, conditional, bit) in order; "
                        "classification per type name; per constructor of the compiled package: id, Go type name, fields in order with kind and tl tag, FlagIndex, Implements methods; "
@@ -516,6 +526,12 @@ def replay(ctx, path):
             open(src, "w").write(obj["schema_text"])
         rc, o = C.sh([hb, "one", src], env=ctx.env())
         print("ParseSchema:", o.strip()[:300])
+        if obj.get("expected") == "a schema or an error":
+            # totality finding: only a panic / hang is a failure, the generator is not involved
+            bad = o.startswith("P\tpanic") or o.startswith("P\thang")
+            if bad:
+                print("VIOLATION property=C14 replay=%s" % path)
+            return 1 if bad else 0
         bad = not o.startswith("P\tok")
         if not bad:
             os.makedirs(d + "/out")
